@@ -1590,7 +1590,8 @@ class BaseBosonicState(BaseState):
         elif isinstance(modes, int):  # pragma: no cover
             modes = [modes]
 
-        ind = np.sort(np.concatenate([2 * np.array(modes), 2 * np.array(modes) + 1]))
+        # (x_m, p_m) pairs in the order the modes were requested
+        ind = np.stack([2 * np.array(modes), 2 * np.array(modes) + 1], axis=1).ravel()
         avg_mu = np.real_if_close(np.sum(self._weights[:, None] * self._mus[:, ind], axis=0))
         if avg_mu.imag.any():
             raise ValueError("State mean is complex valued.")
